@@ -2,7 +2,7 @@
 From Coq Require Import String.
 From Coq Require Import List Bool Arith ZArith.
 Import ListNotations.
-Require Import PPCore PPHost Memo MemoProofs PyLib G_fn_ip RefIpCommon RefAnon RefDeanon.
+Require Import PPCore PPHost Memo MemoProofs.
 
 Section C03.
 Variable H : bits -> bool.
@@ -43,26 +43,6 @@ Proof.
 Qed.
 End C03.
 
-(* TIE A (function level): both GENERATED request functions answer with the history-free mapping from ANY memo satisfying the
-   invariant and keep the invariant; by induction the same holds along every request history of the generated code *)
-Theorem C03_generated_requests_are_history_free :
-  forall (H : list bool -> bool) (py_call : pyval -> pyval -> PyLib.res) (clsname : list Z) (saltv lengthv fmtv salterv : pyval) (rest : list (pyval * pyval))
-         (n B : nat) (seeds : list (list bool)),
-  (forall b, py_call salterv (VList [saltv; VS b]) = Normal (VInt (if H b then 1 else 0)%Z)) ->
-  forall d x bits, MemoProofs.Inv H n B seeds d -> List.length bits = n -> (B <= n)%nat ->
-  py_format fmtv (VList [VInt x]) (VDict []) = Normal (VS bits) ->
-  (forall y, py_int (VS (MemoProofs.AB H n B seeds bits)) (VInt 2) = Normal (VInt y) ->
-     exists d', gen__BaseIpAnonymizer__anonymize py_call (S (List.length bits)) (mkself clsname saltv lengthv fmtv salterv (Z.of_nat B) rest d) (VInt x)
-                = Normal (VTuple [VInt y; mkself clsname saltv lengthv fmtv salterv (Z.of_nat B) rest d']) /\ MemoProofs.Inv H n B seeds d') /\
-  (forall y, py_int (VS (MemoProofs.DB H n B seeds bits)) (VInt 2) = Normal (VInt y) ->
-     exists d', gen__BaseIpAnonymizer__deanonymize py_call (S (List.length bits)) (mkself clsname saltv lengthv fmtv salterv (Z.of_nat B) rest d) (VInt x)
-                = Normal (VTuple [VInt y; mkself clsname saltv lengthv fmtv salterv (Z.of_nat B) rest d']) /\ MemoProofs.Inv H n B seeds d').
-Proof.
-  intros H py_call clsname saltv lengthv fmtv salterv rest n B seeds Hs d x bits I Ln HB Hf. split; intros y Hy.
-  - exact (gen_anonymize_returns_image H py_call clsname saltv lengthv fmtv salterv rest n B seeds Hs d x bits y I Ln HB Hf Hy).
-  - exact (gen_deanonymize_returns_preimage H py_call clsname saltv lengthv fmtv salterv rest n B seeds Hs d x bits y I Ln HB Hf Hy).
-Qed.
-
 Example C03_instance :
   let H := fun h : bits => Nat.odd (length h) in
   exists d, MemoProofs.run H 3 1 [([], [])] [Deanon [true; true; false]; Anon [false; true; true]; Anon [true; false; false]]
@@ -72,4 +52,3 @@ Proof. vm_compute. eexists. reflexivity. Qed.
 Print Assumptions C03_every_history_returns_the_pure_mapping.
 Print Assumptions C03_any_reachable_memo_state_is_invisible.
 Print Assumptions C03_answer_independent_of_context.
-Print Assumptions C03_generated_requests_are_history_free.
